@@ -34,6 +34,10 @@ GROUPS = [
     ['', '-', ',', ' AND ', ' ', '  ', 'AND', ' AND', 'AND '],         # separator-like
     ['a', 'A', 'a ', ' a', 'é', 'e\u0301', 'E\u0301', 'É'],              # case / blanks / unicode normalisation variants
     ['0', '00', '01', '10', '1.0', '1e0', '1', '+1', 'None', 'nan'],   # numeric spellings
+    ['a', 'a\x00', 'a\x00\x00', '', '\x00', '\x00a', 'a\x00b'],          # NUL characters (fixed-width string buffers pad with them)
+    # digit strings of length >= 10: a decimal length prefix WITHOUT terminator is ambiguous here
+    # ('1' + '2' + '12' + '012345678917' == '12' + '120123456789' + '1' + '7')
+    ['2', '012345678917', '120123456789', '7', '1', '01234567891', '20123456789', '17'],
 ]
 
 
@@ -46,6 +50,9 @@ def case_strategy(draw):
     sub = draw(st.lists(st.sampled_from(group), min_size=1, max_size=5, unique=True))
     sub = list(dict.fromkeys(sub + draw(st.lists(st.sampled_from(POOL), max_size=2))))
     cols = [draw(st.lists(st.sampled_from(sub), min_size=nrows, max_size=nrows)) for _ in range(k)]
+    if group is GROUPS[-1] and nrows >= 2 and draw(st.booleans()):
+        cols[0][0], cols[1][0] = '2', '012345678917'
+        cols[0][1], cols[1][1] = '120123456789', '7'
     label = draw(st.lists(st.sampled_from(['0', '1']), min_size=nrows, max_size=nrows))
     order = draw(st.integers(2, min(4, k)))
     ncomb = math.comb(k, order)
